@@ -22,7 +22,10 @@ package main
 
 import (
 	"fmt"
+	"go/token"
+	"go/types"
 	"os"
+	"regexp"
 	"strings"
 
 	"golang.org/x/tools/go/ssa"
@@ -221,4 +224,304 @@ func (w *World) woStore(loc string) *woResult {
 	res := &woResult{st: hit, suffix: strings.TrimPrefix(loc, hitKey)}
 	st.wo[loc] = res
 	return res
+}
+
+// Constructor objects.
+//
+// `newTurnRequest(req, msg, method).refresh()`: the per-request context object is built by a
+// small constructor and its stages are methods. A field of such an object that is only ever
+// written while its object is under construction (immutableField) is another name for the
+// value the constructor stored there, expressed at the constructor's call site.
+
+type ctorInfo struct {
+	alloc  *ssa.Alloc
+	stores map[string]*ssa.Store // field path (".a.b") -> the one store; nil entry when written twice
+}
+
+func (w *World) ctorOf(h *ssa.Function, idx int) *ctorInfo {
+	type key struct {
+		h   *ssa.Function
+		idx int
+	}
+	st := w.ss()
+	if st.ctors == nil {
+		st.ctors = map[interface{}]*ctorInfo{}
+	}
+	k := key{h, idx}
+	if r, ok := st.ctors[k]; ok {
+		return r
+	}
+	st.ctors[k] = nil
+	if h == nil || !w.IsMod[h] || len(h.Blocks) == 0 {
+		return nil
+	}
+	var al *ssa.Alloc
+	rets := returnsOf(h)
+	if len(rets) == 0 {
+		return nil
+	}
+	for _, r := range rets {
+		if idx >= len(r.Results) {
+			return nil
+		}
+		rv := stripIface(w.resolveLoad(r.Results[idx]))
+		if isNilConst(rv) {
+			continue
+		}
+		a, ok := rv.(*ssa.Alloc)
+		if !ok || !a.Heap || (al != nil && al != a) || !freshUnescapedAt(a, r) {
+			return nil
+		}
+		al = a
+	}
+	if al == nil {
+		return nil
+	}
+	info := &ctorInfo{alloc: al, stores: map[string]*ssa.Store{}}
+	bad := false
+	var visit func(v ssa.Value, path string)
+	visit = func(v ssa.Value, path string) {
+		for _, r := range *v.Referrers() {
+			switch x := r.(type) {
+			case *ssa.FieldAddr:
+				visit(x, path+"."+derefStruct(x.X.Type()).Field(x.Field).Name())
+			case *ssa.Store:
+				if x.Addr == v {
+					if _, dup := info.stores[path]; dup {
+						info.stores[path] = nil
+					} else {
+						info.stores[path] = x
+					}
+				} else if path != "" {
+					bad = true // a field's address stored away
+				}
+			case *ssa.UnOp, *ssa.DebugRef, *ssa.Return:
+			default:
+				if path != "" {
+					bad = true
+				}
+			}
+		}
+	}
+	visit(al, "")
+	if bad {
+		return nil
+	}
+	st.ctors[k] = info
+	return info
+}
+
+// ctorField: ld loads field path P of an object that is the result of a constructor call
+// (reached through receivers/parameters that are bound to one argument): the value stored by
+// the constructor into P (or into a prefix of P — then suffix names the rest), in the terms of
+// the constructor's call site.
+func (w *World) ctorField(ld *ssa.UnOp) (ssa.Value, string, bool) {
+	if ld.Op != token.MUL {
+		return nil, "", false
+	}
+	if _, isFA := ld.X.(*ssa.FieldAddr); !isFA {
+		return nil, "", false
+	}
+	path := pathOf(ld.X)
+	root := rootAddr(ld.X)
+	for i := 0; i < 6; i++ {
+		switch x := root.(type) {
+		case *ssa.Parameter:
+			a, ok := argOfParam(x)
+			if !ok {
+				return nil, "", false
+			}
+			root = a
+			continue
+		case *ssa.UnOp:
+			r := w.resolveLoadLocal(x)
+			if r == ssa.Value(x) {
+				return nil, "", false
+			}
+			root = r
+			continue
+		case *ssa.FreeVar:
+			b := w.binding(x)
+			if b == nil {
+				return nil, "", false
+			}
+			root = b
+			continue
+		}
+		break
+	}
+	call, idx := callOf(root)
+	if os.Getenv("TURNCHECK_WODEBUG") != "" {
+		fmt.Fprintf(os.Stderr, "CTOR %s path=%v root=%T call=%v\n", w.instrPos(ld), path, root, call != nil)
+	}
+	if call == nil {
+		return nil, "", false
+	}
+	if _, isP := root.(*ssa.Parameter); isP {
+		return nil, "", false
+	}
+	// a per-request context object: the constructed object does not outlive the function
+	// that called the constructor (not stored, returned, captured or handed to a goroutine)
+	if !w.confinedToCaller(root) {
+		return nil, "", false
+	}
+	if idx < 0 {
+		idx = 0
+	}
+	h := call.Call.StaticCallee()
+	info := w.ctorOf(h, idx)
+	if info == nil || len(path) == 0 {
+		return nil, "", false
+	}
+	// the first field of the path must be immutable after construction
+	stt := derefStruct(info.alloc.Type())
+	if stt == nil {
+		return nil, "", false
+	}
+	var f0 *types.Var
+	for i := 0; i < stt.NumFields(); i++ {
+		if stt.Field(i).Name() == path[0] {
+			f0 = stt.Field(i)
+		}
+	}
+	if f0 == nil || !w.immutableField(f0) {
+		return nil, "", false
+	}
+	for n := len(path); n >= 1; n-- {
+		p := "." + strings.Join(path[:n], ".")
+		st, ok := info.stores[p]
+		if !ok {
+			continue
+		}
+		if st == nil {
+			return nil, "", false
+		}
+		suffix := ""
+		if n < len(path) {
+			suffix = "." + strings.Join(path[n:], ".")
+		}
+		return w.translate(st.Val, h, call), suffix, true
+	}
+	return nil, "", false
+}
+
+// confinedToCaller: the object v (a call result) is only used, in the function that obtained
+// it, as the base of field addresses and as an argument/receiver of synchronous static calls
+// of module functions (which in turn only do the same with the parameter).
+func (w *World) confinedToCaller(v ssa.Value) bool {
+	seen := map[ssa.Value]bool{}
+	var ok func(v ssa.Value, depth int) bool
+	ok = func(v ssa.Value, depth int) bool {
+		if seen[v] || v.Referrers() == nil {
+			return true
+		}
+		seen[v] = true
+		if depth > 5 {
+			return false
+		}
+		for _, r := range *v.Referrers() {
+			switch x := r.(type) {
+			case *ssa.DebugRef, *ssa.FieldAddr:
+			case *ssa.UnOp:
+				// *obj: a copy of the struct value — harmless
+			case *ssa.BinOp:
+				if x.Op != token.EQL && x.Op != token.NEQ {
+					return false
+				}
+			case *ssa.If:
+			case *ssa.Call:
+				h := x.Call.StaticCallee()
+				if h == nil || !w.IsMod[h] || len(h.Blocks) == 0 {
+					return false
+				}
+				for i, a := range x.Call.Args {
+					if a == v {
+						if i >= len(h.Params) || !ok(h.Params[i], depth+1) {
+							return false
+						}
+					}
+				}
+			case *ssa.Extract:
+				if !ok(x, depth) {
+					return false
+				}
+			default:
+				return false
+			}
+		}
+		return true
+	}
+	return ok(v, 0)
+}
+
+var ctorKeyRe = regexp.MustCompile(`\*@(call:[^: ]+:t\d+)((?:\.[A-Za-z_][A-Za-z0-9_]*)+)`)
+
+// normCtorKey rewrites, inside a key built by substitution (a helper's value expressed at its
+// call site), loads of immutable fields of constructor-built context objects into the value
+// the constructor stored: "*@call:handleRefresh:t0.Request.SrcAddr" becomes
+// "param:handleRefresh:req.SrcAddr".
+func (w *World) normCtorKey(k string) string {
+	if !strings.Contains(k, "*@call:") {
+		return k
+	}
+	st := w.ss()
+	if st.ctorCalls == nil {
+		st.ctorCalls = map[string]*ssa.Call{}
+		for _, fn := range w.ModFns {
+			w.eachInstr(fn, func(in ssa.Instruction) {
+				call, ok := in.(*ssa.Call)
+				if !ok {
+					return
+				}
+				h := call.Call.StaticCallee()
+				if h == nil || !w.IsMod[h] || w.ctorOf(h, 0) == nil || !w.confinedToCaller(call) {
+					return
+				}
+				st.ctorCalls["call:"+fname(fn)+":"+call.Name()] = call
+			})
+		}
+	}
+	for iter := 0; iter < 6; iter++ {
+		changed := false
+		k = ctorKeyRe.ReplaceAllStringFunc(k, func(m string) string {
+			sub := ctorKeyRe.FindStringSubmatch(m)
+			call := st.ctorCalls[sub[1]]
+			if call == nil {
+				return m
+			}
+			h := call.Call.StaticCallee()
+			info := w.ctorOf(h, 0)
+			path := strings.Split(strings.TrimPrefix(sub[2], "."), ".")
+			stt := derefStruct(info.alloc.Type())
+			var f0 *types.Var
+			for i := 0; stt != nil && i < stt.NumFields(); i++ {
+				if stt.Field(i).Name() == path[0] {
+					f0 = stt.Field(i)
+				}
+			}
+			if f0 == nil || !w.immutableField(f0) {
+				return m
+			}
+			for n := len(path); n >= 1; n-- {
+				s2, ok := info.stores["."+strings.Join(path[:n], ".")]
+				if !ok {
+					continue
+				}
+				if s2 == nil {
+					return m
+				}
+				suffix := ""
+				if n < len(path) {
+					suffix = "." + strings.Join(path[n:], ".")
+				}
+				changed = true
+				return w.key(w.translate(s2.Val, h, call)) + suffix
+			}
+			return m
+		})
+		if !changed {
+			break
+		}
+	}
+	return k
 }
